@@ -4,7 +4,7 @@ import core
 
 VERIF = os.path.dirname(os.path.dirname(os.path.abspath(__file__)))
 REPO = os.environ.get('PDB_REPO', '/repo')
-CACHE = os.path.join(VERIF, '.cache')
+CACHE = os.environ.get('PDB_CACHE', os.path.join(VERIF, '.cache'))
 
 CONFIGS = {
     # name -> (cargo args, crates to dump, packages)
